@@ -1,2 +1,279 @@
-import UtilModel.CContainer.Model
+import UtilModel.CContainer.Proofs
 import UtilModel.CContainer.Monitors
+/-!
+# ccontainer.CContainer — property theorems (C15)
+
+Every theorem quantifies over **all** event lists: every number of writers and waiters, every
+interleaving of their critical sections and select decisions, every timing of cancellations and
+error-channel deliveries, both equalities. A position in a run is given by splitting the event list.
+-/
+namespace UtilModel.CContainer
+open UtilModel
+
+/-! ## GetValue / SetValue / SwapValue are atomic operations on one cell -/
+
+/-- **C15, atomic cell (one operation).** The critical section of an operation reads the content,
+applies the operation's function to *that* content and stores the result in one step: the call will
+return `o.result` of the content it found, and the new content is `o.newVal` of it — no other
+writer's update can fall in between. -/
+theorem op_atomic (s s' : St) (t : Nat) (o : Op) (ht : s.th[t]? = some (.opInv o))
+    (hs : step s (.opCS t) = some s') :
+    s'.th[t]? = some (.opRan o (o.result s.val)) ∧ s'.val = o.newVal s.m s.val := by
+  simp only [step, ht] at hs
+  simp at hs; subst hs
+  simp [lt_of_getElem? ht]
+
+/-- an operation returns exactly the result computed in its critical section -/
+theorem op_returns (s s' : St) (t r : Nat) (hs : step s (.retOp t r) = some s') :
+    ∃ o, s.th[t]? = some (.opRan o r) := retOp_from s s' t r hs
+
+/-- **C15, atomic cell (history).** Along every run (after the container was created) the content
+is the left fold of the executed operations, in the order of their critical sections, over the
+initial content: every update is applied exactly once, on top of all earlier ones. -/
+theorem cell_atomic (s s' : St) (es : List Ev) (hr : model.run s es = some s')
+    (hnew : ∀ v m, Ev.new v m ∉ es) :
+    s'.m = s.m ∧ s'.val = (opsAlong s es).foldl (fun v o => o.newVal s.m v) s.val := by
+  induction es generalizing s with
+  | nil => simp [OLTS.run] at hr; subst hr; simp [opsAlong]
+  | cons e es ih =>
+    simp only [OLTS.run] at hr
+    cases hst : model.step s e with
+    | none => simp [hst] at hr
+    | some s1 =>
+      simp [hst] at hr
+      have hst' : step s e = some s1 := hst
+      obtain ⟨hm, hv⟩ := step_val s e s1 hst' (fun v m h => hnew v m (by simp [h]))
+      obtain ⟨im, iv⟩ := ih s1 hr (fun v m h => hnew v m (by simp [h]))
+      refine ⟨by rw [im, hm], ?_⟩
+      rw [iv, hm, hv]
+      simp only [opsAlong, hst']
+      cases opOf s e <;> simp
+
+theorem inc_newVal (m val : Nat) (hm : m ≠ 1) : (Op.swap .inc).newVal m val = val + 1 := by
+  have hne : compare m val (val + 1) = false := by
+    unfold compare
+    have h1 : (val == val + 1) = false := by simp
+    rw [h1]
+    by_cases hm0 : m = 0
+    · simp [hm0]
+    · have hpos : 0 < m := Nat.pos_of_ne_zero hm0
+      have hlt := Nat.mod_lt val hpos
+      have : val % m ≠ (val + 1) % m := by
+        intro h
+        rw [Nat.add_mod] at h
+        by_cases hlast : val % m + 1 < m
+        · rw [Nat.mod_eq_of_lt (by omega : 1 < m), Nat.mod_eq_of_lt hlast] at h; omega
+        · have hm2 : 1 < m := by omega
+          rw [Nat.mod_eq_of_lt hm2] at h
+          have : val % m + 1 = m := by omega
+          rw [this, Nat.mod_self] at h; omega
+      simp [hm0, this]
+  simp [Op.newVal, SwapF.apply, hne]
+
+/-- **C15: N `SwapValue(increment)` calls give +N**, whatever their interleaving with each other and
+with reads (under any equality except "everything is equal"): no update is lost. -/
+theorem swap_inc_adds (s s' : St) (es : List Ev) (hr : model.run s es = some s')
+    (hnew : ∀ v m, Ev.new v m ∉ es) (hm : s.m ≠ 1)
+    (hops : ∀ o ∈ opsAlong s es, o = .swap .inc ∨ o = .get ∨ o = .swap .nilcb) :
+    s'.val = s.val + (opsAlong s es).countP (· == .swap .inc) := by
+  rw [(cell_atomic s s' es hr hnew).2]
+  generalize opsAlong s es = ops at hops
+  generalize s.val = v
+  induction ops generalizing v with
+  | nil => simp
+  | cons o os ih =>
+    simp only [List.foldl_cons]
+    rw [ih (fun o' ho' => hops o' (by simp [ho'])) _]
+    rcases hops o (by simp) with h | h | h
+    · subst h; rw [inc_newVal s.m v hm]; simp; omega
+    · subst h; simp [Op.newVal]
+    · subst h
+      have : (Op.swap SwapF.nilcb).newVal s.m v = v := by
+        simp only [Op.newVal, SwapF.apply]; exact ite_self _
+      rw [this]; simp
+
+/-! ## waiters return only a value the cell held, which satisfies the condition -/
+
+/-- **C15, a returned value was held and satisfies the condition.** If a run contains the response
+`ret t wait val v` (or `ret t wait ok` of `WaitValueEmpty`), then at an earlier position call `t`
+ran a critical section in which the cell content was exactly `v` (resp. some content) on which its
+condition holds — the value returned is the one sampled there. -/
+theorem wait_returns_held_value (es : List Ev) (s : St) (t : Nat) (r : WRes)
+    (hr : r = .ok ∨ ∃ v, r = .val v)
+    (h : model.run model.init (es ++ [.retWait t r]) = some s) :
+    ∃ es1 e es2 s0 s1 k, es = es1 ++ e :: es2 ∧ model.run model.init es1 = some s0 ∧
+      step s0 e = some s1 ∧ (e = .waitCS t ∨ e = .wakeCS t) ∧ waitingWith s0 t k ∧
+      k.eval s0.m s0.val = .ok ∧ r = okResult k s0.val ∧ s1.val = s0.val := by
+  obtain ⟨sm, hrun, hl⟩ := model.run_prefix _ _ _ _ h
+  simp only [OLTS.run] at hl
+  cases hst : model.step sm (.retWait t r) with
+  | none => simp [hst] at hl
+  | some s' =>
+    have hth := retWait_from sm s' t r hst
+    obtain ⟨es1, e, es2, s0, s1, g1, g2, g3, g4, g5, _⟩ :=
+      model.run_first_flip (fun s => s.th[t]? = some (.wRet r)) model.init sm es hrun
+        (by simp [model]) hth
+    rcases step_wRet s0 s1 e t r g3 g5 g4 with ⟨k, he, hw, hv, hres⟩ | ⟨hb, _⟩ | ⟨_, ech, _, hres⟩
+    · rcases hres with ⟨hev, hrk⟩ | ⟨_, hrk⟩
+      · exact ⟨es1, e, es2, s0, s1, k, g1, g2, g3, he, hw, hev, hrk, hv⟩
+      · rcases hr with hr | ⟨v, hr⟩ <;> (rw [hr] at hrk; cases hrk)
+    · rcases hr with hr | ⟨v, hr⟩ <;> (rw [hr] at hb; cases hb)
+    · rcases hres with ⟨err, _, hrk⟩ | ⟨_, _, hrk⟩ <;>
+        (rcases hr with hr | ⟨v, hr⟩ <;> (rw [hr] at hrk; cases hrk))
+
+/-- `okResult` unpacked: a returned `val v` is the sampled content -/
+theorem okResult_val (k : WKind) (x v : Nat) (h : WRes.val v = okResult k x) : v = x ∧ k ≠ .empty := by
+  cases k <;> simp [okResult] at h <;> simp [h]
+
+/-! ## errors only from a source that fired -/
+
+/-- **C15, `context.Canceled` only if the context was cancelled or the error channel closed.** -/
+theorem wait_canceled_only_if_fired (es : List Ev) (s : St) (t : Nat)
+    (h : model.run model.init (es ++ [.retWait t .canceled]) = some s) :
+    Ev.envCancel t ∈ es ∨ Ev.envErrClose t ∈ es := by
+  obtain ⟨sm, hrun, hl⟩ := model.run_prefix _ _ _ _ h
+  simp only [OLTS.run] at hl
+  cases hst : model.step sm (.retWait t .canceled) with
+  | none => simp [hst] at hl
+  | some s' =>
+    have hth := retWait_from sm s' t .canceled hst
+    obtain ⟨es1, e, es2, s0, s1, g1, g2, g3, g4, g5, _⟩ :=
+      model.run_first_flip (fun s => s.th[t]? = some (.wRet .canceled)) model.init sm es hrun
+        (by simp [model]) hth
+    rcases step_wRet s0 s1 e t .canceled g3 g5 g4 with ⟨k, _, _, _, hres⟩ | ⟨_, _, hcx⟩ | ⟨_, ech, hech, hres⟩
+    · rcases hres with ⟨_, hrk⟩ | ⟨_, hrk⟩
+      · cases k <;> simp [okResult] at hrk
+      · cases hrk
+    · left
+      obtain ⟨fs1, e', fs2, u0, u1, k1, _, k3, k4, k5, _⟩ :=
+        model.run_first_flip (fun s => s.cx.contains t = true) model.init s0 es1 g2
+          (by simp [model]) hcx
+      have := step_cx u0 u1 e' t k3 k5 (by simpa using k4)
+      subst this
+      rw [g1, k1]; simp
+    · right
+      rcases hres with ⟨err, _, hrk⟩ | ⟨_, hcl, _⟩
+      · cases hrk
+      · have hQ : echHas (fun c => c.closed = true) s0.th t := ⟨ech, hech, hcl⟩
+        obtain ⟨fs1, e', fs2, u0, u1, k1, _, k3, k4, k5, _⟩ :=
+          model.run_first_flip (fun s => echHas (fun c => c.closed = true) s.th t) model.init s0 es1 g2
+            (by intro ⟨c, hc, _⟩; simp [model] at hc) hQ
+        obtain ⟨c, _, hnc, hcase⟩ := step_echHas (fun c => c.closed = true) (by simp)
+          (by intro c rest _ hp; exact hp) u0 u1 e' t k3 k5 k4
+        rcases hcase with ⟨m, _, hp⟩ | ⟨he, _⟩
+        · exact absurd hp hnc
+        · subst he; rw [g1, k1]; simp
+
+/-- **C15, an error is returned only if it was sent on the call's error channel, or is the
+validator's own error on a content the cell actually held.** -/
+theorem wait_err_only_if_fired (es : List Ev) (s : St) (t err : Nat)
+    (h : model.run model.init (es ++ [.retWait t (.err err)]) = some s) :
+    Ev.envErr t (some err) ∈ es ∨
+    (err = verrCode ∧ ∃ es1 e es2 s0 s1 k, es = es1 ++ e :: es2 ∧
+      model.run model.init es1 = some s0 ∧ step s0 e = some s1 ∧ (e = .waitCS t ∨ e = .wakeCS t) ∧
+      waitingWith s0 t k ∧ k.eval s0.m s0.val = .error) := by
+  obtain ⟨sm, hrun, hl⟩ := model.run_prefix _ _ _ _ h
+  simp only [OLTS.run] at hl
+  cases hst : model.step sm (.retWait t (.err err)) with
+  | none => simp [hst] at hl
+  | some s' =>
+    have hth := retWait_from sm s' t (.err err) hst
+    obtain ⟨es1, e, es2, s0, s1, g1, g2, g3, g4, g5, _⟩ :=
+      model.run_first_flip (fun s => s.th[t]? = some (.wRet (.err err))) model.init sm es hrun
+        (by simp [model]) hth
+    rcases step_wRet s0 s1 e t (.err err) g3 g5 g4 with ⟨k, he, hw, _, hres⟩ | ⟨hb, _⟩ | ⟨_, ech, hech, hres⟩
+    · right
+      rcases hres with ⟨_, hrk⟩ | ⟨hev, hrk⟩
+      · cases k <;> simp [okResult] at hrk
+      · cases hrk
+        exact ⟨rfl, es1, e, es2, s0, s1, k, g1, g2, g3, he, hw, hev⟩
+    · cases hb
+    · left
+      rcases hres with ⟨err', hq, hrk⟩ | ⟨_, _, hrk⟩
+      · cases hrk
+        have hmem : some err ∈ ech.q := by
+          cases hq' : ech.q with
+          | nil => simp [hq'] at hq
+          | cons a r => simp [hq'] at hq; simp [hq]
+        have hQ : echHas (fun c => some err ∈ c.q) s0.th t := ⟨ech, hech, hmem⟩
+        obtain ⟨fs1, e', fs2, u0, u1, k1, _, k3, k4, k5, _⟩ :=
+          model.run_first_flip (fun s => echHas (fun c => some err ∈ c.q) s.th t) model.init s0 es1 g2
+            (by intro ⟨c, hc, _⟩; simp [model] at hc) hQ
+        obtain ⟨c, _, hnc, hcase⟩ := step_echHas (fun c => some err ∈ c.q) (by simp)
+          (by intro c rest hq hp; rw [hq]; simp at hp ⊢; exact hp) u0 u1 e' t k3 k5 k4
+        rcases hcase with ⟨m, he, hp⟩ | ⟨_, hp⟩
+        · simp at hp
+          rcases hp with hp | hp
+          · exact absurd hp hnc
+          · subst hp; subst he; rw [g1, k1]; simp
+        · exact absurd hp hnc
+      · cases hrk
+
+/-! ## never blocked while the content satisfies the condition -/
+
+/-- **C15, no lost wake-up (parked invariant).** In every reachable state a wait call parked on a
+still-open channel has a condition that is false on the current content: every write issued after it
+sampled the content closed its channel — including a write that lands between its critical section
+and its `select`. No discipline is needed: `SetValue`/`SwapValue` broadcast in the very critical
+section in which they change the content. -/
+theorem wait_parked_open_false (es : List Ev) (s : St) (h : model.run model.init es = some s)
+    (t : Nat) (k : WKind) (e : Option ECh) (ch : Nat) (ht : s.th[t]? = some (.wParked k e ch))
+    (hopen : s.bc.closed ch = false) : k.eval s.m s.val = .no :=
+  ((reachable_inv es s h).parked t k e ch ht).2 hopen
+
+/-- **C15, no lost wake-up (enabledness).** If the content satisfies (or fails) the condition of a
+parked wait call, its channel is closed, its re-check critical section is enabled *now*, and that
+step makes the call return the current content (or the validator's error). -/
+theorem wait_satisfied_enabled (es : List Ev) (s : St) (h : model.run model.init es = some s)
+    (t : Nat) (k : WKind) (e : Option ECh) (ch : Nat) (ht : s.th[t]? = some (.wParked k e ch))
+    (hsat : k.eval s.m s.val ≠ .no) :
+    s.bc.closed ch = true ∧ ∃ s', step s (.wakeCS t) = some s' ∧
+      (s'.th[t]? = some (.wRet (okResult k s.val)) ∨ s'.th[t]? = some (.wRet (.err verrCode))) := by
+  have hcl : s.bc.closed ch = true := by
+    cases hcl : s.bc.closed ch
+    · exact absurd (wait_parked_open_false es s h t k e ch ht hcl) hsat
+    · rfl
+  have hlt := lt_of_getElem? ht
+  refine ⟨hcl, waitAttempt s t k e, by simp [step, ht, hcl], ?_⟩
+  unfold waitAttempt
+  cases hev : k.eval s.m s.val with
+  | ok => left; cases k <;> simp [hlt, okResult]
+  | error => right; simp [hlt]
+  | no => exact absurd hev hsat
+
+/-- **C15, no lost wake-up (quiescence).** When nothing can take a step any more (`quiesce` is
+enabled), no pending wait call has a condition that is satisfied or failing on the content. -/
+theorem wait_quiescent_none_true (es : List Ev) (s : St) (h : model.run model.init es = some s)
+    (hq : quiescent s = true) (t : Nat) (k : WKind) (e : Option ECh) (ch : Nat)
+    (ht : s.th[t]? = some (.wParked k e ch)) : k.eval s.m s.val = .no := by
+  have hlt := lt_of_getElem? ht
+  unfold quiescent at hq
+  rw [List.all_eq_true] at hq
+  have := hq t (by simp [hlt])
+  simp only [ht, TS.quiet] at this
+  simp at this
+  exact wait_parked_open_false es s h t k e ch ht this.1.1
+
+/-! ## the model can do something -/
+
+/-- a write lands between a waiter's sample and its select: the waiter is parked on a *closed*
+channel, re-checks and returns the new value -/
+example : ∃ s, model.run model.init
+    [.new 0 0, .invWait 0 .value false, .waitCS 0, .invOp 1 (.set 3), .opCS 1, .retOp 1 0,
+     .wakeCS 0, .retWait 0 (.val 3), .quiesce []] = some s ∧ s.val = 3 := by
+  decide
+
+/-- three interleaved increments, all critical sections after all invocations: +3 -/
+example : ∃ s, model.run model.init
+    [.new 1 0, .invOp 0 (.swap .inc), .invOp 1 (.swap .inc), .invOp 2 (.swap .inc),
+     .opCS 2, .opCS 0, .opCS 1, .retOp 0 3, .retOp 1 4, .retOp 2 2] = some s ∧ s.val = 4 := by
+  decide
+
+/-- custom equality modulo 10: `SetValue(13)` on content 3 stores nothing and wakes nobody; the
+waiter for a change stays parked, legitimately -/
+example : ∃ s, model.run model.init
+    [.new 3 10, .invWait 0 (.change 3) false, .waitCS 0, .invOp 1 (.set 13), .opCS 1, .retOp 1 0,
+     .quiesce [0]] = some s ∧ s.val = 3 := by
+  decide
+
+end UtilModel.CContainer
